@@ -143,6 +143,10 @@ def run(ctx):
     # fewer than t shares never aggregate into a released signature: Ok only behind the group-key verification
     from .c04 import verify_before_release
     verify_before_release(ctx)
+    if not ctx.core_only:
+        # the threshold travels with the re-randomized public key package (the core aggregation's count check reads it there)
+        from .c17 import randomized_public_package
+        randomized_public_package(ctx)
     threshold_provenance(ctx)
     # the sharing polynomial has t-1 *independent* coefficients (one draw each)
     from .c16 import per_coefficient_draw
